@@ -121,3 +121,39 @@ def setup_steps(n_sessions: int, mailbox: str = 'INBOX', others=('Other',),
 
 def maybe_seed(rng: random.Random, p_none: float = 0.25):
     return None if rng.random() < p_none else rng.getrandbits(32)
+
+
+def backends(default=('dict',)):
+    """Backends a profile samples from; PYMAP_VERIF_BACKENDS overrides (used
+    while developing, e.g. PYMAP_VERIF_BACKENDS=maildir)."""
+    import os
+    env = os.environ.get('PYMAP_VERIF_BACKENDS')
+    if env:
+        return tuple(x for x in env.split(',') if x)
+    return tuple(default)
+
+
+def finish_cfg(case: dict, rng: random.Random) -> dict:
+    """Backend-specific knobs that every generator shares."""
+    cfg = case['config']
+    if cfg.get('backend') == 'maildir':
+        cfg.setdefault('layout', rng.choice(['++', 'fs']))
+        # generators write UID sets for the dict backend (first UID 101)
+        import re
+
+        def shift(text):
+            return re.sub(r'\d+', lambda m: str(int(m.group()) - 100)
+                          if 100 < int(m.group()) < 1000 else m.group(),
+                          text)
+        for step in case.get('steps', ()):
+            for act in step.get('actions', ()):
+                if act.get('uid') and isinstance(act.get('set'), str):
+                    act['set'] = shift(act['set'])
+                if isinstance(act.get('uid_set'), str):
+                    act['uid_set'] = shift(act['uid_set'])
+                if act.get('kind') == 'search' and \
+                        isinstance(act.get('keys'), str):
+                    act['keys'] = shift(act['keys'])
+        if rng.random() < 0.3 and 'listdir' not in cfg.get('buggify', []):
+            cfg.setdefault('buggify', []).append('listdir')
+    return case
